@@ -965,7 +965,7 @@ Proof.
     split; [reflexivity|split; [reflexivity|split; [reflexivity|]]]. rewrite N.sub_diag.
     constructor; cbn [wuw wv ulog unext ufuse].
     + apply (wrep_wv c (put_vec vid (Some v') u' w1)); [reflexivity|]. apply wrep_after_panic; assumption.
-    + rewrite wuw_put. cbn [disarm unext]. rewrite Hn'. unfold w1. rewrite wuw_put. lia.
+    + rewrite wuw_put. cbn [disarm unext]. rewrite Hn'. lia.
     + rewrite wuw_put. unfold uevents in *. cbn [disarm ulog]. rewrite He'. reflexivity.
   - rewrite (on_vec_panic vid _ w1 va p va (wuw w1) Hg1a Hspec).
     unfold quiet, drop_offer. cbn [f_drop o]. unfold ret. cbn [wuw wv ulog unext ufuse].
@@ -978,6 +978,56 @@ Proof.
     + unfold w1. rewrite !wuw_put. unfold uevents. destruct (wuw w); reflexivity.
 Qed.
 
+Lemma exec_offer_userlazy_f c w st vid idx d r :
+  cfg_wf c -> WRep c w st -> ufuse (wuw w) = Some 0 -> adm_vec c w vid ->
+  sp_offer_userlazy_f c st (unext (wuw w)) vid idx = Some r ->
+  res_matches_f c w ((do o <- make_offer c (SLazyUser d);
+                      offer_into c vid o (raw_action c idx);; ret (0, @nil N)) w) r.
+Proof.
+  intros Hwf HW Hfuse Hadm Hr. unfold sp_offer_userlazy_f in Hr.
+  destruct (get_a vid st) as [av|] eqn:Hga; [|discriminate].
+  destruct (wrep_get c w st vid av HW Hga) as (va & Hgva & HVa).
+  cbv zeta in Hr.
+  set (t := tok c (unext (wuw w))) in *.
+  set (o := {| f_ty := c_ty c; f_src := VClone (enc (szn c) t) true; f_checked := true; f_drop := DAfter t |}).
+  assert (Emk : make_offer c (SLazyUser d) w = Ok o (bump w)) by reflexivity.
+  unfold bind at 1. rewrite Emk.
+  set (w0 := bump w).
+  assert (Hg0 : get_vec vid w0 = Some va) by exact Hgva.
+  assert (Hnx0 : unext (wuw w0) = unext (wuw w) + 1) by reflexivity.
+  assert (Hf0 : ufuse (wuw w0) = Some 0) by exact Hfuse.
+  pose proof (raw_action_clone_f c va av (wuw w0) idx (enc (szn c) t) t true Hwf HVa
+                (dec_enc _ _ (tok_tok_ok c _)) Hf0 (Hadm va Hgva)) as Hspec.
+  rewrite Hnx0 in Hspec.
+  unfold offer_into, unwinding.
+  unfold bind at 1. unfold bind at 1. unfold on_unwind. rewrite offer_check_pass by reflexivity. cbn [f_src o].
+  destruct (put_value c av idx (tok c (unext (wuw w) + 1))) as [xs'|p]; injection Hr as <-.
+  - destruct Hspec as (v' & u' & E & HV' & Hn' & He').
+    rewrite (on_vec_panic vid _ w0 va PUser v' u' Hg0 E).
+    unfold quiet, drop_offer. cbn [f_drop o]. unfold harness_drop.
+    cbn [res_matches_f panic_res s_out s_pk s_ret s_st s_evs s_nx].
+    assert (Hrep : WRep c (put_vec vid (Some v') u' w0) (after_clone_panic st vid av idx)).
+    { apply wrep_after_panic; [apply wrep_bump; exact HW|exact Hga|exact HV']. }
+    destruct (c_dg c) eqn:Hdg; unfold emitw, ret; cbn [wuw wv put_vec ulog unext ufuse disarm emit res_matches_f];
+      (split; [reflexivity|split; [reflexivity|split; [reflexivity|]]]);
+      constructor; cbn [wuw wv ulog unext ufuse panic_res s_nx s_evs s_st];
+      try (apply (wrep_wv c (put_vec vid (Some v') u' w0)); [reflexivity|exact Hrep]);
+      try (rewrite Hn'; unfold w0, bump; cbn [wuw unext]; lia);
+      try (unfold uevents in *; cbn [ulog filter is_user_event]; rewrite He'; unfold drop_ev; rewrite Hdg;
+           unfold w0, bump; cbn [wuw ulog rev app]; reflexivity).
+  - rewrite (on_vec_panic vid _ w0 va p va (wuw w0) Hg0 Hspec).
+    unfold quiet, drop_offer. cbn [f_drop o]. unfold harness_drop.
+    cbn [res_matches_f panic_res s_out s_pk s_ret s_st s_evs s_nx].
+    assert (Hrep : WRep c (put_vec vid (Some va) (wuw w0) w0) st).
+    { apply (wrep_put_same c w0 st vid va av); [apply wrep_bump; exact HW|exact Hga|exact HVa]. }
+    destruct (c_dg c) eqn:Hdg; unfold emitw, ret; cbn [wuw wv put_vec ulog unext ufuse disarm emit res_matches_f];
+      (split; [reflexivity|split; [reflexivity|split; [reflexivity|]]]);
+      constructor; cbn [wuw wv ulog unext ufuse panic_res s_nx s_evs s_st];
+      try (apply (wrep_wv c (put_vec vid (Some va) (wuw w0) w0)); [reflexivity|exact Hrep]);
+      try (unfold w0, bump; cbn [wuw unext]; lia);
+      try (unfold uevents, drop_ev; rewrite Hdg; unfold w0, bump; cbn [wuw ulog filter is_user_event rev app]; reflexivity).
+Qed.
+
 Lemma exec_fused c w st k o r :
   cfg_wf c -> WRep c w st -> ufuse (wuw w) = Some k ->
   spec_step_f c st (unext (wuw w)) (Some k) o = Some r -> admissible c w o ->
@@ -988,6 +1038,14 @@ Proof.
   - (* ODropVec *)
     destruct (sp_clear_f c st (unext (wuw w)) v k) as [r0|] eqn:E0; [|discriminate]. injection Hr as <-.
     exact (exec_dropvec_f c w st v k r0 HW Hfuse E0).
+  - (* OPush *) destruct a; [|discriminate]. cbn [admissible] in Hadm. cbn [exec].
+    destruct s; try discriminate; destruct (N.eqb_spec k 0) as [->|]; try discriminate.
+    + exact (exec_offer_lazy_f c w st v None depth vid idx r Hwf HW Hfuse Hadm Hr).
+    + exact (exec_offer_userlazy_f c w st v None depth r Hwf HW Hfuse Hadm Hr).
+  - (* OInsert *) destruct a; [|discriminate]. cbn [admissible] in Hadm. cbn [exec].
+    destruct s; try discriminate; destruct (N.eqb_spec k 0) as [->|]; try discriminate.
+    + exact (exec_offer_lazy_f c w st v (Some idx) depth vid idx0 r Hwf HW Hfuse Hadm Hr).
+    + exact (exec_offer_userlazy_f c w st v (Some idx) depth r Hwf HW Hfuse Hadm Hr).
   - (* OPop *) destruct k0; try discriminate.
     exact (exec_take_drop_f c w st a v TPop 0 k r Hwf HW Hfuse (fun _ => eq_refl) Hr).
   - (* ORemove *) destruct k0; try discriminate.
@@ -1012,7 +1070,25 @@ Proof.
     destruct (sp_take c st nx v tk idx KDrop) as [r0|] eqn:E0; [|discriminate]. apply sp_take_nx in E0.
     destruct (c_dg c && (k =? 0) && (s_out r0 =? 0)); [|injection Ht as <-; exact E0].
     destruct (get_a v st); [|discriminate]. injection Ht as <-. cbn; split; lia. }
-  destruct o; try discriminate; try (destruct k0; try discriminate; eapply Htd; exact H).
+  assert (Hlz : forall v idx src sidx, sp_offer_lazy_f c st nx v idx src sidx = Some r -> nx <= s_nx r /\ s_out r < 100).
+  { intros v idx src sidx Hl. unfold sp_offer_lazy_f in Hl.
+    repeat match type of Hl with
+    | Some _ = Some _ => injection Hl as <-
+    | None = Some _ => discriminate Hl
+    | context [match ?x with _ => _ end] => destruct x eqn:?
+    | context [if ?x then _ else _] => destruct x eqn:?
+    end; cbn; split; lia. }
+  assert (Hulz : forall v idx, sp_offer_userlazy_f c st nx v idx = Some r -> nx <= s_nx r /\ s_out r < 100).
+  { intros v idx Hl. unfold sp_offer_userlazy_f in Hl. cbv zeta in Hl.
+    repeat match type of Hl with
+    | Some _ = Some _ => injection Hl as <-
+    | None = Some _ => discriminate Hl
+    | context [match ?x with _ => _ end] => destruct x eqn:?
+    | context [if ?x then _ else _] => destruct x eqn:?
+    end; cbn; split; lia. }
+  destruct o; try discriminate; try (destruct k0; try discriminate; eapply Htd; exact H);
+    try (destruct a; [|discriminate]; destruct s; try discriminate; destruct (k =? 0); try discriminate;
+         [eapply Hlz; exact H|eapply Hulz; exact H]).
   - destruct (sp_clear_f c st nx v k) as [r0|] eqn:E0; [|discriminate]. injection H as <-. cbn [s_nx s_out].
     unfold sp_clear_f in E0. destruct (get_a v st) as [av|]; [|discriminate]. cbv zeta in E0.
     destruct (c_dg c && (k <? N.of_nat (length (a_xs av)))); injection E0 as <-; cbn; split; lia.
@@ -1126,7 +1202,11 @@ Definition exf_ops : list (option N * op) :=
     (Some 1, OSplice Erased 2 (BIncluded 1) (BExcluded 3) [] FinDrop RWrap 2 None 2);   (* A: the second destructor of the range panics *)
     (None, OPush Erased 2 SWrap); (None, OPush Erased 2 SWrap); (None, OPush Erased 2 SWrap);
     (Some 2, OSplice Typed 2 (BIncluded 1) (BExcluded 2) [] FinDrop RWrap 3 None 3);    (* B: the second call of next() panics *)
-    (Some 9, OSplice Erased 2 BUnbounded BUnbounded [] FinDrop RBox 1 None 1) ].        (* C: nothing panics *)
+    (Some 9, OSplice Erased 2 BUnbounded BUnbounded [] FinDrop RBox 1 None 1);          (* C: nothing panics *)
+    (None, ONew 3 BHeap); (None, OPush Erased 3 SWrap); (None, OPush Erased 3 SWrap);
+    (Some 0, OPush Erased 3 (SLazy 1 2 0));        (* the Clone of the lazy clone panics: nothing is created, nothing changes *)
+    (Some 0, OInsert Erased 3 1 (SLazy 2 2 0));    (* ... inside insert: the tail behind the insertion point stays hidden *)
+    (Some 0, OInsert Erased 3 0 (SLazyUser 1)) ].  (* ... of a value the caller owns: that value is destroyed by the caller *)
 Example exf_outcomes :
   map (fun r => (s_out r, s_pk r, s_evs r, map (fun o => match o with Some a => a_xs a | None => [] end) (s_st r)))
       (match spec_run_f ex_cfg [] 1 exf_ops with Some rs => rs | None => [] end)
@@ -1144,7 +1224,9 @@ Example exf_outcomes :
      (2,8,[EDrop 19; EDrop 20; EDrop 22; EDrop 23],[[]; []; [18]]);
      (0,0,[],[[]; []; [18;24]]); (0,0,[],[[]; []; [18;24;25]]); (0,0,[],[[]; []; [18;24;25;26]]);
      (2,8,[EDrop 24; ENext; ENext; EDrop 28; EDrop 29],[[]; []; [18]]);
-     (0,0,[EDrop 18; ENext],[[]; []; [30]])].
+     (0,0,[EDrop 18; ENext],[[]; []; [30]]);
+     (0,0,[],[[]; []; [30]; []]); (0,0,[],[[]; []; [30]; [31]]); (0,0,[],[[]; []; [30]; [31;32]]);
+     (2,8,[],[[]; []; [30]; [31;32]]); (2,8,[],[[]; []; [30]; [31]]); (2,8,[EDrop 33],[[]; []; [30]; []])].
 Proof. vm_compute. reflexivity. Qed.
 Fixpoint Admissible_fb (c : cfg) (w : world) (ops : list (option N * op)) : bool :=
   match ops with
